@@ -20,7 +20,7 @@ MANIFEST = {
     'technique': 'runtime monitoring: model-based differential oracle over generated documents x style vectors (metamorphic across spellings)',
 }
 LEVEL = 'exploration'
-BUDGET = {'quick': 40, 'thorough': 420}
+BUDGET = {'quick': 60, 'thorough': 420}
 RULE = ('abstract documents (exhaustive per-element products: column flags x default kind x note x inline ref x type; '
         'index shape x options; headers; ref kind x form x action pairs x name x arity; plus seeded random whole '
         'documents) each written by an independent DBML writer in several random style vectors (identifier quoting, '
